@@ -139,6 +139,24 @@ impl PacketBuilder {
         self.raw_buf_offset = 0;
     }
 
+    /// Reassembler state (verification hook, read-only):
+    /// (phase 0/1/2, header bytes, remaining length, multiplier, buffered body bytes, offset)
+    #[cfg(feature = "verif-hooks")]
+    pub fn verif_state(&self) -> (u8, Vec<u8>, usize, u32, Option<usize>, usize) {
+        (
+            match self.state {
+                ReadState::FixedHeader => 0,
+                ReadState::RemainingLength => 1,
+                ReadState::Payload => 2,
+            },
+            self.header_buf.clone(),
+            self.remaining_length,
+            self.multiplier,
+            self.raw_buf.as_ref().map(|b| b.len()),
+            self.raw_buf_offset,
+        )
+    }
+
     /// Get packet type (first byte of fixed header)
     fn get_packet_type(&self) -> u8 {
         if !self.header_buf.is_empty() {
